@@ -28,3 +28,30 @@ class UvlSafeSimpleName:
 
     def post_quoted_otherwise(name, result):
         return result == name or result == '"' + name + '"'
+
+
+# ------------------------------------------------------------------ group keyword of a relation
+@contract(TR + 'uvl_writer.py', 'UVLWriter.serialize_relation', prop='C01')
+class UvlSerializeRelation:
+    """the keyword written for a relation is the one to which the UVL language gives the relation's cardinality:
+    mandatory / optional for a single child with [1..1] / [0..1], alternative = exactly one of several, or = at least one of
+    several, otherwise the explicit group cardinality [n], [a..b] or [a..*] (-1 is the library's unbounded maximum)"""
+    def pre(rel):
+        return wf()
+
+    def post_mandatory(rel, result):
+        return (result == 'mandatory') == (len(rel.children) == 1 and rel.card_min == 1 and rel.card_max == 1)
+
+    def post_optional(rel, result):
+        return (result == 'optional') == (len(rel.children) == 1 and rel.card_min == 0 and rel.card_max == 1)
+
+    def post_alternative(rel, result):
+        return (result == 'alternative') == (len(rel.children) > 1 and rel.card_min == 1 and rel.card_max == 1)
+
+    def post_or(rel, result):
+        return (result == 'or') == (len(rel.children) > 1 and rel.card_min == 1 and rel.card_max == len(rel.children))
+
+    def post_cardinality(rel, result):
+        return implies(result not in ['mandatory', 'optional', 'alternative', 'or'],
+                       result == ('[' + str(rel.card_min) + ']' if rel.card_min == rel.card_max
+                                  else '[' + str(rel.card_min) + '..' + ('*' if rel.card_max == -1 else str(rel.card_max)) + ']'))
